@@ -2,6 +2,7 @@ package main
 
 import (
 	"fmt"
+	"go/token"
 	"go/types"
 	"sort"
 	"strings"
@@ -128,6 +129,16 @@ func (c *Ctx) preRunGuard(conds []condEdge) string {
 	seenPart := map[string]bool{}
 	for _, ce := range conds {
 		p := "?"
+		if _, isPhi := ce.cond.(*ssa.Phi); isPhi {
+			continue // a merged `a && b` value: its operands are listed separately
+		}
+		for {
+			u, ok := ce.cond.(*ssa.UnOp)
+			if !ok || u.Op != token.NOT {
+				break
+			}
+			ce = condEdge{cond: u.X, taken: !ce.taken}
+		}
 		switch x := ce.cond.(type) {
 		case *ssa.Call:
 			n := calleeName(x.Common())
